@@ -482,6 +482,16 @@ func checkIgnorePatternsVerbatim(p *core.Prog, r *core.Result, rule string) {
 				continue
 			}
 			arg := c.Common().Args[0]
+			// a helper that is handed the list (compileIgnores(c.Ignore)): look at what its callers pass
+			if prm, isParam := core.Unwrap(arg).(*ssa.Parameter); isParam {
+				if i := paramIndex(fn, prm); i >= 0 {
+					for _, cs := range p.StaticCallers(fn) {
+						if i < len(cs.Common().Args) && core.LoadOfField(core.Unwrap(cs.Common().Args[i]), pkgProj, "Config", "Ignore") {
+							arg = cs.Common().Args[i]
+						}
+					}
+				}
+			}
 			fromIgnore := core.DependsOn(arg, core.SliceOpts{Stores: true, ThroughCall: func(*ssa.Call) bool { return true }}, func(v ssa.Value) bool {
 				return core.LoadOfField(v, pkgProj, "Config", "Ignore")
 			}) || core.LoadOfField(core.Unwrap(arg), pkgProj, "Config", "Ignore")
